@@ -6,6 +6,13 @@ One request per line, one reply per line; anything malformed is answered `bad-op
 
   reset <old|fixed>                       forget everything; model of the pinned tree / of the tree
                                           with the F30 repair of MemorizedFunc.call          → ok
+  reset <old|fixed> key-after-call        the same with the VARIANT `Cfg.keyAfterCall` (not the tree's code: a
+                                          forced call computes its key after the body ran; used only to validate
+                                          that variant against the seeded change C06-r4-m3)   → ok
+  mut <slot> <call> | <call>              one row of the EFFECT of the callable of <slot> on its arguments: called
+                                          with the first <call> (arguments as passed) the body leaves the second
+                                          (same shape: the values the same objects hold afterwards).  Before the
+                                          `F` line of the slot; a call without a row is left unchanged.   → ok
   V <id> <value>                          `E.val id := value` (id must be new)              → ok
   H <stream-hex> <32 hex digits>          one row of the digest table                        → ok
   F <slot> <fid> func <sig> <ig>          declare a cached callable in slot <slot>           → ok
@@ -37,8 +44,8 @@ itself (injective; the table only has to hold the digests `Hasher` computes on i
 the top-level stream is reported and the harness compares `md5(stream)` with the real args id;
 `missing-digest` is reported instead when a stand-in digest ended up inside the stream: the model's
 stream of some key differs from every stream the implementation hashed).
-The cached functions return their non-ignored bound arguments (`R = List (Nat × Val)`), as the
-harness' generated functions do; an `x` / `h` flag says executed / served from the store.
+The cached functions return their non-ignored bound arguments AS PASSED (`R = List (Nat × Val)`), as the
+harness' generated functions do (the mutating ones return a snapshot taken before they mutate); an `x` / `h` flag says executed / served from the store.
 -/
 import JoblibModel.MemoryCache
 import JoblibModel.IOUtil
@@ -51,7 +58,9 @@ structure DState where
   vals : List (Nat × PyVal) := []
   htab : List (Bs × Bs) := []
   fns : List (Nat × Fn R) := []
-  ver : Option MemoryCache.Version := none
+  cfg : Option MemoryCache.Cfg := none
+  /-- effect tables: (slot, arguments as passed) ↦ arguments as the body leaves them -/
+  muts : List ((Nat × Call) × Call) := []
   store : St R := {}
   /-- entry id of the i-th call-like request (for `evictops`) -/
   opKeys : List (Nat × (Nat × Bs)) := []
@@ -171,6 +180,12 @@ def pCall (ts : List String) : Option Call := do
   if ¬ decide (CallWF ⟨args, kw⟩) then none
   pure ⟨args, kw⟩
 
+/-- `<call> | <call>` -/
+def splitBar : List String → Option (List String × List String)
+  | [] => none
+  | "|" :: r => some ([], r)
+  | t :: r => (splitBar r).map fun p => (t :: p.1, p.2)
+
 def pBool : String → Option Bool
   | "0" => some false
   | "1" => some true
@@ -283,20 +298,38 @@ def pCallable : List String → Option (Callable × List String)
     pure (.part s pa pk, ts)
   | _ => none
 
+def cfgOf (st : DState) : Cfg := st.cfg.getD ⟨.fixed, false⟩
+
 /-- Run one model operation and render its output. -/
 def runOp (st : DState) (fn : Fn R) (c : Call) (op : Op R) : DState × String :=
-  let r := MemoryCache.step (st.ver.getD .fixed) (digestOf st) (envOf st) st.store op
-  let keys := match argsId (digestOf st) (envOf st) fn.cal fn.ig c with
+  let r := MemoryCache.stepC (cfgOf st) (digestOf st) (envOf st) st.store op
+  -- the entry the request is about (for `evictops`): the key of the arguments as passed — in the variant, for a forced call, of
+  -- the arguments as the body left them
+  let kc := match (cfgOf st).keyAfterCall, op with
+    | true, .force _ _ => fn.effect c
+    | _, _ => c
+  let keys := match argsId (digestOf st) (envOf st) fn.cal fn.ig kc with
     | .ok k => (st.nops, (fn.fid, k)) :: st.opKeys
     | .error _ => st.opKeys
   ({ st with store := r.2, opKeys := keys, nops := st.nops + 1 }, showOut st fn c r.1)
 
 def handle (st : DState) (line : String) : DState × String :=
   let bad := (st, "bad-op")
-  if st.ver.isNone ∧ (tokens line).head? ≠ some "reset" then bad else
+  if st.cfg.isNone ∧ (tokens line).head? ≠ some "reset" then bad else
   match tokens line with
-  | ["reset", "old"] => ({ ver := some .old }, "ok")
-  | ["reset", "fixed"] => ({ ver := some .fixed }, "ok")
+  | ["reset", "old"] => ({ cfg := some ⟨.old, false⟩ }, "ok")
+  | ["reset", "fixed"] => ({ cfg := some ⟨.fixed, false⟩ }, "ok")
+  | ["reset", "old", "key-after-call"] => ({ cfg := some ⟨.old, true⟩ }, "ok")
+  | ["reset", "fixed", "key-after-call"] => ({ cfg := some ⟨.fixed, true⟩ }, "ok")
+  | "mut" :: slot :: ts =>
+    match slot.toNat?, (splitBar ts).bind fun p => (pCall p.1).bind fun c => (pCall p.2).map fun c' => (c, c') with
+    | some sl, some (c, c') =>
+      if (dget sl st.fns).isNone && declared st (callIds c) && declared st (callIds c')
+          && c.args.length == c'.args.length && c.kwargs.map Prod.fst == c'.kwargs.map Prod.fst
+          && (dget (sl, c) st.muts).isNone then
+        ({ st with muts := dset (sl, c) c' st.muts }, "ok")
+      else bad
+    | _, _ => bad
   | "V" :: id :: ts =>
     match id.toNat?, parseVal (2 * ts.length + 2) ts with
     | some i, some (v, []) => if (dget i st.vals).isSome then bad else ({ st with vals := dset i v st.vals }, "ok")
@@ -311,7 +344,7 @@ def handle (st : DState) (line : String) : DState × String :=
       match parseCounted pKey ts with
       | some (ig, []) =>
         if wfCal cal && declared st (calIds cal) && (dget sl st.fns).isNone then
-          ({ st with fns := dset sl ⟨fi, cal, ig, bodyOf cal ig⟩ st.fns }, "ok")
+          ({ st with fns := dset sl ⟨fi, cal, ig, bodyOf cal ig, fun c => (dget (sl, c) st.muts).getD c⟩ st.fns }, "ok")
         else bad
       | _ => bad
     | _, _, _ => bad
@@ -337,17 +370,17 @@ def handle (st : DState) (line : String) : DState × String :=
     | _, _ => bad
   | ["clearfn", slot] =>
     match slot.toNat?.bind (dget · st.fns) with
-    | some fn => ({ st with store := (MemoryCache.step (st.ver.getD .fixed) (digestOf st) (envOf st) st.store (.clearFn fn)).2 }, "ok")
+    | some fn => ({ st with store := (MemoryCache.stepC (cfgOf st) (digestOf st) (envOf st) st.store (.clearFn fn)).2 }, "ok")
     | none => bad
   | ["clearall"] =>
-    ({ st with store := (MemoryCache.step (st.ver.getD .fixed) (digestOf st) (envOf st) st.store (.clearAll : Op R)).2 }, "ok")
+    ({ st with store := (MemoryCache.stepC (cfgOf st) (digestOf st) (envOf st) st.store (.clearAll : Op R)).2 }, "ok")
   | ["fresh"] =>
-    ({ st with store := (MemoryCache.step (st.ver.getD .fixed) (digestOf st) (envOf st) st.store (.fresh : Op R)).2 }, "ok")
+    ({ st with store := (MemoryCache.stepC (cfgOf st) (digestOf st) (envOf st) st.store (.fresh : Op R)).2 }, "ok")
   | "evict" :: ts =>
     match parseCounted pEvict ts with
     | some (ids, []) =>
       let keys := ids.map fun p => (p.1, digestOf st p.2)
-      ({ st with store := (MemoryCache.step (st.ver.getD .fixed) (digestOf st) (envOf st) st.store (.evict keys : Op R)).2 }, "ok")
+      ({ st with store := (MemoryCache.stepC (cfgOf st) (digestOf st) (envOf st) st.store (.evict keys : Op R)).2 }, "ok")
     | _ => bad
   | "clearloc" :: ts =>
     match parseCounted pNat ts with
@@ -360,7 +393,7 @@ def handle (st : DState) (line : String) : DState × String :=
     | some (idx, []) =>
       match idx.mapM (dget · st.opKeys) with
       | some keys =>
-        ({ st with store := (MemoryCache.step (st.ver.getD .fixed) (digestOf st) (envOf st) st.store (.evict keys : Op R)).2 }, "ok")
+        ({ st with store := (MemoryCache.stepC (cfgOf st) (digestOf st) (envOf st) st.store (.evict keys : Op R)).2 }, "ok")
       | none => bad
     | _ => bad
   | _ => bad
